@@ -300,6 +300,14 @@ func exploreRunnerState(r *ev.Run, st aState, acts []act, maxDepth int, add func
 					if res.d.Commits() != 0 {
 						r.Violate("a/refused-start-wrote-to-db", map[string]any{"trace": tr})
 					}
+				case res.newErr != nil && m0.L>>uint(n) != 0:
+					// Tolerance: the recorded target names migrations beyond this binary's registry. The binary cannot
+					// tell an unapplied mandatory migration from an opted-in optional one it does not know, so refusing
+					// is the safe answer and is neither required nor a violation; it must still not write anything.
+					r.Outcome("a: unknown future migration in the recorded target refused (tolerated)")
+					if res.d.Commits() != 0 {
+						r.Violate("a/refused-start-wrote-to-db", map[string]any{"trace": tr})
+					}
 				case res.newErr != nil:
 					r.Outcome("a: start refused without reason")
 					r.Violate("a/legitimate-start-refused", map[string]any{"trace": tr, "db": m0.String(), "err": res.newErr.Error()})
